@@ -871,6 +871,19 @@ def case_wider(which, rep):
                 it = fem.MultiPointConstraint(field, points=top, centerpoint=c, skip=[(0, 0), (0, 1), (1, 0)][rep % 3], multiplier=float(rng.uniform(10, 100)))
             evaluate(run, [it], field, "%s[2d]" % type(it).__name__, rng, conservative=True, order=rep % 3)
             run.configs.add(str((type(it).__name__, kind, c)))
+        elif which == "volumetric-law":
+            # the documented dUdJ= / d2UdJdJ= callables of the (u, p, J) wrapper with volumetric energies whose second derivative depends on J
+            # (round 10: a J-J block frozen at its value for J = 1 is invisible with the default quadratic energy and at J = 1)
+            kind, fam = [("mixed", "hexahedron"), ("mixed-planestrain", "quad"), ("mixed-axisymmetric", "quad"), ("mixed", "hexahedron20")][rep % 4]
+            field, mesh, reg = make_field(kind, fam, "distorted", rng)
+            random_state(rng, field)
+            bulk = float(rng.uniform(3, 30))
+            law = ["ln2", "J2-lnJ"][(rep // 4) % 2] if rep >= 4 else ["ln2", "J2-lnJ"][rep % 2]
+            dU, d2U = {"ln2": (lambda J, K: K * np.log(J) / J, lambda J, K: K * (1 - np.log(J)) / J ** 2),
+                       "J2-lnJ": (lambda J, K: K / 2 * (J - 1 / J), lambda J, K: K / 2 * (1 + 1 / J ** 2))}[law]
+            um = fem.NearlyIncompressible(fem.NeoHooke(mu=float(rng.uniform(0.5, 2))), bulk=bulk, dUdJ=dU, d2UdJdJ=d2U)
+            evaluate(run, [fem.SolidBody(um, field)], field, "SolidBody[mixed,U=%s]" % law, rng, conservative=True, order=rep % 3)
+            run.configs.add(str(("volumetric-law", kind, law)))
         elif which == "families":
             # mixed / condensed bodies on further families, bodies on arbitrary-order Lagrange regions
             sel = rep % 8
@@ -981,7 +994,7 @@ def cases(tier, seed):
     for contact in (False, True):
         for rep in range(10 if contact else 6):
             out.append(("mpc:%s:%d" % (contact, rep), case_multipoint(contact, rep)))
-    for which, n in (("quadratic-boundary", 6), ("mixed-list", 4), ("multipoint-2d", 6), ("families", 8)):
+    for which, n in (("quadratic-boundary", 6), ("mixed-list", 4), ("multipoint-2d", 6), ("families", 8), ("volumetric-law", 4)):
         for rep in range(n if tier == "quick" else 3 * n):
             out.append(("wider:%s:%d" % (which, rep), case_wider(which, rep)))
     for rep in range(2):
@@ -1022,7 +1035,7 @@ def _required():
               "SolidBodyPressure[hex]", "SolidBodyPressure[planestrain]", "SolidBodyPressure[axisymmetric]",
               "SolidBodyCauchyStress[hex]", "MultiPointConstraint", "MultiPointContact[open]", "MultiPointContact[closed]",
               "MultiPointContact[mixed]", "MultiPointContact[touching]", "MultiPointContact[all-axes]", "PointLoad", "SolidBodyForce", "SolidBodyGravity", "FormItem", "SolidBody[viscoelastic,history]",
-              "SolidBody[plasticity,history]", "SolidBody[ogden-roxburgh,history]"):
+              "SolidBody[plasticity,history]", "SolidBody[ogden-roxburgh,history]", "SolidBody[mixed,U=ln2]", "SolidBody[mixed,U=J2-lnJ]"):
         req.append("tangent:" + u)
     for u in ("SolidBody[Field]", "SolidBody[FieldPlaneStrain]", "SolidBody[FieldAxisymmetric]", "SolidBody[ThreeFieldVariation,mixed]",
               "SolidBodyNearlyIncompressible[3d]", "MultiPointConstraint", "MultiPointContact[closed]", "FormItem"):
